@@ -125,6 +125,7 @@ impl Monitors {
         let mut errors_this_step: Vec<(Tid, String, Vec<Tid>)> = Vec::new();
         let mut stops_this_step: BTreeSet<usize> = BTreeSet::new();
         let mut cancel_delivered: Vec<(Wid, Vec<Tid>)> = Vec::new();
+        let mut srv_got_updates: Vec<UpdateLite> = Vec::new();
         let mut srv_cancel_sent: BTreeSet<Tid> = BTreeSet::new();
         let mut srv_cancel_sent_to: BTreeSet<(Wid, Tid)> = BTreeSet::new();
         let mut restarted_now = false;
@@ -262,6 +263,9 @@ impl Monitors {
                     }
                 }
                 Obs::SrvGot { m, .. } => {
+                    if let FromWorkerLite::Updates(ups) = m {
+                        srv_got_updates.extend(ups.iter().cloned());
+                    }
                     // coverage: (core task state, message kind) pairs
                     if let (Some(pc), FromWorkerLite::Updates(ups)) = (&prev_core, m) {
                         for u in ups {
@@ -501,7 +505,7 @@ impl Monitors {
         self.check_max_fails(&journal_this_step, &prev_jobs, &jobs, prev_core.as_ref(), &srv_cancel_sent, step, out);
 
         // ---- C05: placements
-        self.check_placements(sim, &action, prev_core.as_ref(), &core, step, out);
+        self.check_placements(sim, &action, prev_core.as_ref(), &core, &srv_got_updates, step, out);
 
         self.prev_core = Some(core);
         self.prev_jobs = jobs;
@@ -1544,6 +1548,7 @@ impl Monitors {
         action: &Option<Action>,
         prev_core: Option<&CoreSnapshot>,
         core: &CoreSnapshot,
+        updates: &[UpdateLite],
         step: u32,
         out: &mut Vec<Violation>,
     ) {
@@ -1572,10 +1577,14 @@ impl Monitors {
             .collect();
         self.drifted_workers.retain(|w| still_off.contains(w) && core.workers.iter().any(|x| x.id.as_num() == *w));
         // the same defect without a visible overbooking at this step boundary: the message that
-        // reported the backlog start also carried rejects/finishes, the saturated subtraction
-        // happened in between, and what is left is a server that counts more free than there is
-        if let Some(w) = prefilled_start_from {
-            if errors_now.iter().any(|e| e.starts_with("accounting") && e.contains(&format!("worker {w} "))) && self.drifted_workers.insert(w) {
+        // reported the backlog start also carried rejects/finishes; the worker was over-committed
+        // only in between (where the server's subtraction saturated), and what is left is a
+        // server that counts more free than there is. To keep this apart from any other
+        // accounting defect the oracle replays the message on its own books: the known mechanism
+        // requires that the placed tasks exceed the worker at some point inside the message
+        if let (Some(w), Some(pc)) = (prefilled_start_from, prev_core) {
+            let off_now = errors_now.iter().any(|e| e.starts_with("accounting") && e.contains(&format!("worker {w} ")));
+            if off_now && transient_overcommit(pc, core, w, updates) && self.drifted_workers.insert(w) {
                 self.count("placement.drift_after_backlog_start", 1);
             }
         }
@@ -2007,6 +2016,55 @@ pub fn state_name(s: &TaskStateSnapshot) -> &'static str {
 /// The oracle's own arithmetic of what is placed on each single-node worker.
 /// Returns messages starting with "overbooked"/"incapable" (C05-P1/P2) or "accounting" (the
 /// server's own free-resource bookkeeping disagrees with the sum).
+/// Replays the task updates of one worker message on the oracle's own books (amounts of the
+/// variants from the request map): was worker `w` over-committed at some point inside the message?
+fn transient_overcommit(prev: &CoreSnapshot, _now: &CoreSnapshot, w: Wid, updates: &[UpdateLite]) -> bool {
+    let Some(ws) = prev.workers.iter().find(|x| x.id.as_num() == w) else { return false };
+    let n = ws.resources.len();
+    let need = |core: &CoreSnapshot, t: &tako::verif::TaskSnapshot, rv: tako::ResourceVariantId| -> Vec<u64> {
+        let mut v = vec![0u64; n];
+        let rq = core.requests.get(t.resource_rq_id.into()).get(rv);
+        for e in rq.entries() {
+            let r = e.resource_id.as_usize();
+            if r < n {
+                v[r] += e.request.amount_or_none_if_all().map(|a| a.total_fractions()).unwrap_or(ws.resources[r]);
+            }
+        }
+        v
+    };
+    // what is placed on w before the message: (task, amounts)
+    let mut placed: BTreeMap<Tid, Vec<u64>> = BTreeMap::new();
+    for t in &prev.tasks {
+        let rv = match &t.state {
+            TaskStateSnapshot::Assigned { worker_id, rv_id } | TaskStateSnapshot::Running { worker_id, rv_id } if worker_id.as_num() == w => Some(*rv_id),
+            TaskStateSnapshot::Retracting { .. } => prev.redirects.iter().find(|r| r.0 == t.id && r.1.as_num() == w).map(|r| r.2),
+            _ => None,
+        };
+        if let Some(rv) = rv {
+            placed.insert(conv::tid(t.id), need(prev, t, rv));
+        }
+    }
+    let over = |placed: &BTreeMap<Tid, Vec<u64>>| (0..n).any(|r| placed.values().map(|v| v[r]).sum::<u64>() > ws.resources[r]);
+    for u in updates {
+        match u {
+            UpdateLite::RunningPrefilled(t, rv) | UpdateLite::Running(t, rv) => {
+                // the task occupies the variant the worker started it in (if the server still knows it)
+                if let Some(ts) = prev.tasks.iter().find(|x| conv::tid(x.id) == *t) {
+                    placed.insert(*t, need(prev, ts, ((*rv) as u8).into()));
+                }
+            }
+            UpdateLite::Finished(t) | UpdateLite::Failed(t, _) | UpdateLite::Reject(t, _) => {
+                placed.remove(t);
+            }
+            UpdateLite::Enable(..) => {}
+        }
+        if over(&placed) {
+            return true;
+        }
+    }
+    false
+}
+
 pub fn accounting_errors(core: &CoreSnapshot) -> Vec<String> {
     let mut errs = Vec::new();
     for w in &core.workers {
